@@ -29,3 +29,6 @@ def unit(prop, target):
 
 from . import loops            # noqa  (sets LOOP_HOOK)
 from . import c18_constructors  # noqa
+from . import util_validators   # noqa
+from . import base_metric       # noqa
+from . import c01_lemmas        # noqa
